@@ -234,6 +234,15 @@ def run_invert(lst):
         S.problem("invert(%r)" % (before,), want, r)
     if arg != before:
         S.problem("invert(%r) argument afterwards" % (before,), before, arg)
+    # the answer is the caller's: after it was edited, an equal question gets the plain answer again (and a new list)
+    if isinstance(r, list):
+        r.append("G")
+        if r:
+            r[0] = "Bb"
+        r2 = intervals.invert(list(before))
+        S.trans(1)
+        if r2 != want or r2 is r:
+            S.problem("invert(%r) asked again after the caller edited the list returned before" % (before,), want, r2)
     S.count("invert_lists")
     if want != before:
         S.count("invert_non_palindromes")
@@ -251,6 +260,8 @@ def _history_calls(small):
         for b in (("E", "F") if small else ("E", "B", "C#", "F")):
             calls.append(("determine", (a, b, True)))
             calls.append(("determine", (a, b)))
+    # a pair and its inversion, one semitone off the perfect fourth / fifth (the qualities that have no mirror image)
+    calls += [("determine", ("C", "F#")), ("determine", ("F#", "C")), ("determine", ("C", "Gb")), ("determine", ("Gb", "C"))]
     for n in (("C", "E") if small else ("C", "E", "Eb")):
         for sh in (("b3", "5") if small else ("3", "b3", "5", "#4")):
             for up in (True, False):
